@@ -3,6 +3,7 @@ import Abmarl.Props.Examples
 import Abmarl.Props.Corridor
 import Abmarl.Props.MultiGrid
 import Abmarl.Props.Reach
+import Abmarl.Props.Pacman
 #print axioms Abmarl.C07_fair_turns_and_progress
 #print axioms Abmarl.C07_every_call_returns
 #print axioms Abmarl.C07_stub
@@ -29,3 +30,6 @@ import Abmarl.Props.Reach
 #print axioms Abmarl.C07_ReachTheTarget
 #print axioms Abmarl.C07_ReachTheTarget_every_call_returns
 #print axioms Abmarl.RT.rt_WF
+#print axioms Abmarl.C07_Pacman
+#print axioms Abmarl.C07_Pacman_every_call_returns
+#print axioms Abmarl.PM.pm_WF
